@@ -38,3 +38,23 @@ add("C19",
     "with 4 entries at a rung (quick: 3 concrete earlier entries from an order-type table + symbolic newcomer; thorough: all symbolic)",
     "symbolic execution of the real numpy-based code through a symbolic-matrix carrier (every element comparison is a z3 fork), brute-force dominance oracle",
     "DESIGN.md 4 C19")
+
+LOOP_NOTE = ("trusted base: CPython 3.12, crosshair-tool 0.0.110 tracer, z3 5.1; harness/tunersim.py (scripted in-memory backend implementing only the "
+             "abstract hooks of TrialBackend, nondeterministic scheduler NDS, online monitors); the real Tuner.run / TrialBackend / TuningStatus code is "
+             "executed unmodified; bounds W,T,R,K,J,P as listed per obligation in the evidence")
+add("C01",
+    "whole-run bounded model checking of the real Tuner.run(): every schedule of worker reports / completions / failures / batch sizes and every scheduler answer "
+    "(nondeterministic scheduler) for W<=2 workers, T<=2 trials, R<=2 reports per run is enumerated by the solver; life-cycle automaton, id sequence, worker budget and "
+    "notification order are checked online",
+    "symbolic execution of the real tuning loop (CrossHair engine + z3) against a nondeterministic scheduler and scripted backend; exhaustive schedule enumeration within bounds",
+    "DESIGN.md 4 C01", note=LOOP_NOTE)
+add("C02",
+    "inductive step of the generic fetch_status_results from an arbitrary consistent backend state (any history length, T=2, <=2-3 reports, all statuses, all timestamp interleavings) "
+    "plus whole-run BMC of the batch-cut logic with late reports; delivery monitor: gap-free in-order prefix, exactly once, nothing written after the decision",
+    "symbolic execution of the real backend/tuner code (CrossHair engine + z3): one-step induction over an arbitrary pre-state + bounded whole-run exploration",
+    "DESIGN.md 4 C02", note=LOOP_NOTE)
+add("C12",
+    "whole-run BMC of the real Tuner.run() incl. its finally block for every count-based stopping criterion x every threshold 0..T, failure limit, wait_trial_completion on/off, "
+    "synchronous scheduling, and an exception injected at a symbolic scheduler call; termination iteration, no start after the criterion, nothing in progress afterwards, counters",
+    "symbolic execution of the real tuning loop (CrossHair engine + z3); termination monitor recomputes the criterion from its own trace",
+    "DESIGN.md 4 C12", note=LOOP_NOTE)
